@@ -190,6 +190,7 @@ fn e1_plan(prop: P, tier: &Tier) -> Vec<PlanItem> {
                 item(f3(if q { 2 } else { 3 }, !q), if q { two_axes() } else { full_axes(tier) }, 1),
                 item(f4(tier), two_axes(), 1),
             ];
+            v.push(item(Box::new(F9 { wide: !q }), two_axes(), if q { 1 } else { 4 }));
             if q {
                 v.push(item(
                     Box::new(Grid::f1_prime().with_fixed(vec![(1, 2, 3), (2, 3, 3)])),
@@ -230,6 +231,7 @@ fn e1_plan(prop: P, tier: &Tier) -> Vec<PlanItem> {
                     if q { 16 } else { 1 },
                 ),
             ];
+            v.push(item(Box::new(F9 { wide: false }), two_axes(), if q { 2 } else { 1 }));
             if prop == P::C04 {
                 v.push(item(
                     Box::new(Decorated::new_with("F5 soft skeletons", soft_skeletons(), f5k(q), false, &f5_filter)),
@@ -257,6 +259,7 @@ fn e1_plan(prop: P, tier: &Tier) -> Vec<PlanItem> {
         }
         P::C08 => {
             let mut v = vec![
+                item(Box::new(F8), two_axes(), 1),
                 item(Box::new(Grid::f1()), two_axes(), 1),
                 item(f4(tier), named(vec![("sync", sync_cfg())]), 1),
                 item(
@@ -419,6 +422,34 @@ pub fn run_e1(ctx: &Ctx, prop: P) -> i32 {
             ctx.t0.elapsed().as_secs_f64()
         );
         rep.push(&name, acc, it.stride == 1, fam.len());
+    }
+    if prop == P::C07 {
+        // union requirements under every completion order of the candidate / dependency requests
+        let q = ctx.tier == Tier::Quick;
+        let fam = Decorated::new("F3 skeletons with unions", skeletons(), if q { 1 } else { 2 }, true, &|d| matches!(d, Deco::AddUnion(..) | Deco::Favor(_)));
+        let aplan = AsyncPlan { mask: K_CANDS | K_DEPS | if q { 0 } else { K_SORT | K_FILTER }, pairs: false, hint: None, complete_cap: if q { 2000 } else { 20000 }, dev_bound: 2, dev_cap: if q { 2000 } else { 20000 } };
+        let opts = SweepOpts {
+            threads: threads(),
+            wall_limit_s: 120,
+            on_stuck: Box::new(|f, idx| {
+                eprintln!("NOTE: C07 async exploration stuck at {f}/{idx}");
+                None
+            }),
+            fam_no: 90,
+            stride: 1,
+            offset: 0,
+        };
+        let acc = sweep(&fam, &opts, &|idx, case, acc| {
+            if !is_wellformed(case) || case.u.unions.is_empty() {
+                return;
+            }
+            acc.count("cases");
+            e2::check_c07_async(case, &aplan, (90, idx, 0), acc);
+        });
+        total_states += acc.get("cases");
+        total_transitions += acc.evaluations;
+        eprintln!("[C07] union sub-family under every completion order: {} cases, {} schedules, {:.1}s", acc.get("cases"), acc.get("schedules"), ctx.t0.elapsed().as_secs_f64());
+        rep.push("F3 skeletons with union requirements x every completion order (controlled executor)", acc, true, fam.len());
     }
     rep.extra.insert("states".into(), json!(total_states));
     rep.extra.insert("transitions".into(), json!(total_transitions));
